@@ -263,7 +263,7 @@ func (b *backend) pathKeysConfigWrite(ctx context.Context, req *logical.Request,
 		resp.AddWarning(warning)
 	}
 
-	if err := logical.EndTxStorage(ctx, req); err != nil {
+	if err := b.endPolicyTxStorage(ctx, req, name); err != nil {
 		return nil, err
 	}
 
